@@ -1,4 +1,479 @@
-//! Further operations (filled in as the model grows).
+//! Archive-level operations of the protocol: tile ids, header, directory spill, directory reading,
+//! edit histories (see driver/driver.ml for the model side; the output formats must match).
+use crate::ops::guard;
+use crate::proto::*;
+use crate::streams::{log_tok, AsyncStream, Core, SyncStream};
+use futures::executor::block_on;
+use pmtiles2::util::{self, WriteDirsOverflowStrategy};
+use pmtiles2::{Compression, Header, PMTiles, TileType};
+use std::collections::BTreeMap;
+use std::io::Cursor;
+use std::ops::Bound;
+use std::panic::{catch_unwind, AssertUnwindSafe};
+
+pub fn ttype_of_code(n: u64) -> TileType {
+    match n {
+        0 => TileType::Unknown,
+        1 => TileType::Mvt,
+        2 => TileType::Png,
+        3 => TileType::Jpeg,
+        4 => TileType::WebP,
+        5 => TileType::AVIF,
+        _ => panic!("bad tile type code"),
+    }
+}
+pub fn ttype_code(t: TileType) -> u64 {
+    match t {
+        TileType::Unknown => 0,
+        TileType::Mvt => 1,
+        TileType::Png => 2,
+        TileType::Jpeg => 3,
+        TileType::WebP => 4,
+        TileType::AVIF => 5,
+    }
+}
+pub fn comp_of_code(n: u64) -> Compression {
+    match n {
+        0 => Compression::Unknown,
+        1 => Compression::None,
+        2 => Compression::GZip,
+        3 => Compression::Brotli,
+        4 => Compression::ZStd,
+        _ => panic!("bad compression code"),
+    }
+}
+pub fn comp_code(c: Compression) -> u64 {
+    match c {
+        Compression::Unknown => 0,
+        Compression::None => 1,
+        Compression::GZip => 2,
+        Compression::Brotli => 3,
+        Compression::ZStd => 4,
+    }
+}
+/// f64 as its bit pattern, all NaNs canonicalised
+pub fn f64_tok(f: f64) -> String {
+    if f.is_nan() {
+        "7ff8000000000000".into()
+    } else {
+        format!("{:x}", f.to_bits())
+    }
+}
+pub fn parse_f64(s: &str) -> f64 {
+    f64::from_bits(unhex_u64(s))
+}
+
+pub type Range = (Bound<u64>, Bound<u64>);
+pub fn parse_bound(s: &str) -> Bound<u64> {
+    if s == "u" {
+        Bound::Unbounded
+    } else if let Some(r) = s.strip_prefix('i') {
+        Bound::Included(unhex_u64(r))
+    } else if let Some(r) = s.strip_prefix('e') {
+        Bound::Excluded(unhex_u64(r))
+    } else {
+        panic!("bad bound")
+    }
+}
+pub fn parse_range(s: &str) -> Range {
+    let (a, b) = s.split_once('_').expect("range");
+    (parse_bound(a), parse_bound(b))
+}
+pub fn bound_tok(b: &Bound<u64>) -> String {
+    match b {
+        Bound::Unbounded => "u".into(),
+        Bound::Included(v) => format!("i{v:x}"),
+        Bound::Excluded(v) => format!("e{v:x}"),
+    }
+}
+pub fn range_tok(r: &Range) -> String {
+    format!("{}_{}", bound_tok(&r.0), bound_tok(&r.1))
+}
+
+// ---------------------------------------------------------------------------------------------
+// header
+// ---------------------------------------------------------------------------------------------
+pub fn header_fields_tok(h: &Header) -> String {
+    [
+        format!("{:x}", h.spec_version),
+        format!("{:x}", h.root_directory_offset),
+        format!("{:x}", h.root_directory_length),
+        format!("{:x}", h.json_metadata_offset),
+        format!("{:x}", h.json_metadata_length),
+        format!("{:x}", h.leaf_directories_offset),
+        format!("{:x}", h.leaf_directories_length),
+        format!("{:x}", h.tile_data_offset),
+        format!("{:x}", h.tile_data_length),
+        format!("{:x}", h.num_addressed_tiles),
+        format!("{:x}", h.num_tile_entries),
+        format!("{:x}", h.num_tile_content),
+        format!("{}", u8::from(h.clustered)),
+        format!("{:x}", comp_code(h.internal_compression)),
+        format!("{:x}", comp_code(h.tile_compression)),
+        format!("{:x}", ttype_code(h.tile_type)),
+        format!("{:x}", h.min_zoom),
+        format!("{:x}", h.max_zoom),
+        f64_tok(h.min_pos.longitude),
+        f64_tok(h.min_pos.latitude),
+        f64_tok(h.max_pos.longitude),
+        f64_tok(h.max_pos.latitude),
+        format!("{:x}", h.center_zoom),
+        f64_tok(h.center_pos.longitude),
+        f64_tok(h.center_pos.latitude),
+    ]
+    .join(" ")
+}
+pub fn header_of_fields(t: &[&str]) -> Header {
+    assert!(t.len() == 25, "header fields");
+    let mut h = Header::default();
+    h.spec_version = u8::try_from(unhex_u64(t[0])).expect("version");
+    h.root_directory_offset = unhex_u64(t[1]);
+    h.root_directory_length = unhex_u64(t[2]);
+    h.json_metadata_offset = unhex_u64(t[3]);
+    h.json_metadata_length = unhex_u64(t[4]);
+    h.leaf_directories_offset = unhex_u64(t[5]);
+    h.leaf_directories_length = unhex_u64(t[6]);
+    h.tile_data_offset = unhex_u64(t[7]);
+    h.tile_data_length = unhex_u64(t[8]);
+    h.num_addressed_tiles = unhex_u64(t[9]);
+    h.num_tile_entries = unhex_u64(t[10]);
+    h.num_tile_content = unhex_u64(t[11]);
+    h.clustered = t[12] == "1";
+    h.internal_compression = comp_of_code(unhex_u64(t[13]));
+    h.tile_compression = comp_of_code(unhex_u64(t[14]));
+    h.tile_type = ttype_of_code(unhex_u64(t[15]));
+    h.min_zoom = u8::try_from(unhex_u64(t[16])).expect("zoom");
+    h.max_zoom = u8::try_from(unhex_u64(t[17])).expect("zoom");
+    h.min_pos.longitude = parse_f64(t[18]);
+    h.min_pos.latitude = parse_f64(t[19]);
+    h.max_pos.longitude = parse_f64(t[20]);
+    h.max_pos.latitude = parse_f64(t[21]);
+    h.center_zoom = u8::try_from(unhex_u64(t[22])).expect("zoom");
+    h.center_pos.longitude = parse_f64(t[23]);
+    h.center_pos.latitude = parse_f64(t[24]);
+    h
+}
+pub fn header_dec(asy: bool, b: &[u8]) -> std::io::Result<(Header, usize)> {
+    if asy {
+        let mut r = futures::io::Cursor::new(b);
+        let h = block_on(Header::from_async_reader(&mut r))?;
+        Ok((h, b.len() - r.position() as usize))
+    } else {
+        let mut r = Cursor::new(b);
+        let h = Header::from_reader(&mut r)?;
+        Ok((h, b.len() - r.position() as usize))
+    }
+}
+pub fn header_enc(asy: bool, h: &Header) -> std::io::Result<Vec<u8>> {
+    if asy {
+        let mut out = futures::io::Cursor::new(Vec::<u8>::new());
+        block_on(h.to_async_writer(&mut out))?;
+        Ok(out.into_inner())
+    } else {
+        let mut out = Vec::<u8>::new();
+        h.to_writer(&mut out)?;
+        Ok(out)
+    }
+}
+
+// ---------------------------------------------------------------------------------------------
+// directories
+// ---------------------------------------------------------------------------------------------
+pub struct WdirsOut {
+    pub img: Vec<u8>,
+    pub pos: u64,
+    pub leaf: Vec<u8>,
+    pub log: Vec<crate::streams::Ev>,
+}
+pub fn wdirs(asy: bool, c: Compression, start: Option<usize>, pos: u64, pre: &[u8], es: &[pmtiles2::Entry]) -> std::io::Result<WdirsOut> {
+    let strat = start.map(|s| WriteDirsOverflowStrategy::OnlyLeafPointers { start_size: Some(s) });
+    if asy {
+        let mut st = AsyncStream(Core::new(pre.to_vec(), pos));
+        let leaf = block_on(util::write_directories_async(&mut st, es, c, strat))?;
+        Ok(WdirsOut { img: st.0.data, pos: st.0.pos, leaf, log: st.0.log })
+    } else {
+        let mut st = SyncStream(Core::new(pre.to_vec(), pos));
+        let leaf = util::write_directories(&mut st, es, c, strat)?;
+        Ok(WdirsOut { img: st.0.data, pos: st.0.pos, leaf, log: st.0.log })
+    }
+}
+pub fn rdirs(asy: bool, c: Compression, ro: u64, rl: u64, lo: u64, rg: Range, img: &[u8]) -> std::io::Result<BTreeMap<u64, (u64, u32)>> {
+    let m = if asy {
+        let mut r = futures::io::Cursor::new(img);
+        block_on(util::read_directories_async(&mut r, c, (ro, rl), lo, rg))?
+    } else {
+        let mut r = Cursor::new(img);
+        util::read_directories(&mut r, c, (ro, rl), lo, rg)?
+    };
+    Ok(m.into_iter().map(|(k, v)| (k, (v.offset, v.length))).collect())
+}
+pub fn tiles_tok(m: &BTreeMap<u64, (u64, u32)>) -> String {
+    if m.is_empty() {
+        return "-".into();
+    }
+    m.iter().map(|(id, (o, l))| format!("{id:x}:{o:x}:{l:x}")).collect::<Vec<_>>().join(",")
+}
+
+// ---------------------------------------------------------------------------------------------
+// histories
+// ---------------------------------------------------------------------------------------------
+pub type SyncPm = PMTiles<Cursor<Vec<u8>>>;
+pub type AsyncPm = PMTiles<futures::io::Cursor<Vec<u8>>>;
+pub enum St {
+    S(SyncPm),
+    A(AsyncPm),
+}
+macro_rules! both {
+    ($st:expr, $p:ident => $e:expr) => {
+        match $st {
+            St::S($p) => $e,
+            St::A($p) => $e,
+        }
+    };
+}
+pub fn fresh(asy: bool) -> St {
+    if asy {
+        St::A(AsyncPm::default())
+    } else {
+        St::S(SyncPm::default())
+    }
+}
+pub fn open(asy: bool, b: Vec<u8>, rg: Range) -> std::io::Result<St> {
+    if asy {
+        Ok(St::A(block_on(PMTiles::from_async_reader_partially(futures::io::Cursor::new(b), rg))?))
+    } else {
+        Ok(St::S(PMTiles::from_bytes_partially(b, rg)?))
+    }
+}
+fn res3<T>(r: std::thread::Result<std::io::Result<T>>) -> Result<T, &'static str> {
+    match r {
+        Ok(Ok(v)) => Ok(v),
+        Ok(Err(_)) => Err("err"),
+        Err(_) => Err("crash"),
+    }
+}
+pub fn tile_res_tok(r: std::thread::Result<std::io::Result<Option<Vec<u8>>>>) -> String {
+    match res3(r) {
+        Ok(None) => "none".into(),
+        Ok(Some(b)) => format!("t{}", hex_bytes(&b)),
+        Err(k) => k.into(),
+    }
+}
+pub fn get_by_id(st: &mut St, id: u64) -> std::thread::Result<std::io::Result<Option<Vec<u8>>>> {
+    catch_unwind(AssertUnwindSafe(|| match st {
+        St::S(p) => p.get_tile_by_id(id),
+        St::A(p) => block_on(p.get_tile_by_id_async(id)),
+    }))
+}
+pub fn get_xyz(st: &mut St, x: u64, y: u64, z: u8) -> std::thread::Result<std::io::Result<Option<Vec<u8>>>> {
+    catch_unwind(AssertUnwindSafe(|| match st {
+        St::S(p) => p.get_tile(x, y, z),
+        St::A(p) => block_on(p.get_tile_async(x, y, z)),
+    }))
+}
+pub fn is_async_state(st: &St) -> bool {
+    matches!(st, St::A(_))
+}
+/// consumes the archive: to_writer / to_async_writer into the given stream core
+pub fn write_to(st: St, core: Core) -> (std::thread::Result<std::io::Result<()>>, Core) {
+    match st {
+        St::S(p) => {
+            let mut s = SyncStream(core);
+            let r = catch_unwind(AssertUnwindSafe(|| p.to_writer(&mut s)));
+            (r, s.0)
+        }
+        St::A(p) => {
+            let mut s = AsyncStream(core);
+            let r = catch_unwind(AssertUnwindSafe(|| block_on(p.to_async_writer(&mut s))));
+            (r, s.0)
+        }
+    }
+}
+pub fn ids_tok(st: &St) -> String {
+    let mut v: Vec<u64> = both!(st, p => p.tile_ids().into_iter().copied().collect());
+    v.sort_unstable();
+    format!("L{}", nums_tok(&v))
+}
+pub fn hdr_tok(st: &St) -> String {
+    both!(st, p => format!(
+        "H{:x}:{:x}:{:x}:{:x}:{:x}:{:x}:{}:{}:{}:{}:{}:{}:{}",
+        ttype_code(p.tile_type), comp_code(p.tile_compression), comp_code(p.internal_compression),
+        p.min_zoom, p.max_zoom, p.center_zoom,
+        f64_tok(p.min_longitude), f64_tok(p.min_latitude), f64_tok(p.max_longitude), f64_tok(p.max_latitude),
+        f64_tok(p.center_longitude), f64_tok(p.center_latitude),
+        hex_bytes(&serde_json::to_vec(&p.meta_data).expect("meta"))
+    ))
+}
+pub fn snap_tok(st: &St) -> String {
+    let s = both!(st, p => p.verif_snapshot());
+    let content = |h: u64| -> String {
+        match s.data_by_hash.iter().find(|(k, _)| *k == h) {
+            Some((_, b)) => hex_bytes(b),
+            None => format!("?{h:x}"),
+        }
+    };
+    let t: Vec<String> = s
+        .tile_by_id
+        .iter()
+        .map(|(id, t)| match t {
+            Ok(h) => format!("{id:x}={}", content(*h)),
+            Err((o, l)) => format!("{id:x}=@{o:x}+{l:x}"),
+        })
+        .collect();
+    let mut d: Vec<String> = s.data_by_hash.iter().map(|(_, b)| hex_bytes(b)).collect();
+    d.sort();
+    let mut r: Vec<String> = s
+        .ids_by_hash
+        .iter()
+        .map(|(h, ids)| format!("{}={}", content(*h), ids.iter().map(|i| format!("{i:x}")).collect::<Vec<_>>().join("+")))
+        .collect();
+    r.sort();
+    let j = |l: &Vec<String>| if l.is_empty() { "-".to_string() } else { l.join(",") };
+    format!("P{}/{}/{}", j(&t), j(&d), j(&r))
+}
+
+pub fn run_hist(mode: &str, ops: &str) -> String {
+    let mut st = fresh(mode == "async");
+    let mut outs: Vec<String> = Vec::new();
+    for o in ops.split(';') {
+        let f: Vec<&str> = o.split(':').collect();
+        let out: String = match f.as_slice() {
+            ["a", id, d] => {
+                let (id, d) = (unhex_u64(id), unhex_bytes(d));
+                let r = catch_unwind(AssertUnwindSafe(|| both!(&mut st, p => p.add_tile(id, d))));
+                match res3(r) {
+                    Ok(()) => "ok".into(),
+                    Err(k) => k.into(),
+                }
+            }
+            ["r", id] => {
+                let id = unhex_u64(id);
+                both!(&mut st, p => p.remove_tile(id));
+                "-".into()
+            }
+            ["g", id] => tile_res_tok(get_by_id(&mut st, unhex_u64(id))),
+            ["x", x, y, z] => tile_res_tok(get_xyz(&mut st, unhex_u64(x), unhex_u64(y), u8::try_from(unhex_u64(z)).expect("z"))),
+            ["l"] => ids_tok(&st),
+            ["n"] => format!("N{:x}", both!(&st, p => p.num_tiles())),
+            ["s", w, r] => {
+                assert_eq!(*w == "a", is_async_state(&st), "write family must match the state");
+                let old = std::mem::replace(&mut st, fresh(*r == "a"));
+                let (res, core) = write_to(old, Core::new(Vec::new(), 0));
+                match res3(res) {
+                    Ok(()) => {
+                        let b = core.data;
+                        let h = hex_bytes(&b);
+                        let ro = catch_unwind(AssertUnwindSafe(|| open(*r == "a", b, (Bound::Unbounded, Bound::Unbounded))));
+                        match res3(ro) {
+                            Ok(s2) => {
+                                st = s2;
+                                format!("S{h},ok")
+                            }
+                            Err(k) => format!("S{h},{k}"),
+                        }
+                    }
+                    Err(k) => format!("S{k},ok"),
+                }
+            }
+            ["o", r, rg, b] => {
+                let (rg, b) = (parse_range(rg), unhex_bytes(b));
+                let ro = catch_unwind(AssertUnwindSafe(|| open(*r == "a", b, rg)));
+                match res3(ro) {
+                    Ok(s2) => {
+                        st = s2;
+                        "ok".into()
+                    }
+                    Err(k) => {
+                        st = fresh(*r == "a");
+                        k.into()
+                    }
+                }
+            }
+            ["w", m, pos, pre] => {
+                assert_eq!(*m == "a", is_async_state(&st), "write family must match the state");
+                let fam = is_async_state(&st);
+                let old = std::mem::replace(&mut st, fresh(fam));
+                let (res, core) = write_to(old, Core::new(unhex_bytes(pre), unhex_u64(pos)));
+                match res3(res) {
+                    Ok(()) => format!("W{},{:x},{}", hex_bytes(&core.data), core.pos, log_tok(&core.log)),
+                    Err(k) => k.into(),
+                }
+            }
+            ["c", c] => {
+                let c = parse_comp(c);
+                both!(&mut st, p => p.internal_compression = c);
+                "-".into()
+            }
+            ["m", m] => {
+                let v: serde_json::Value = serde_json::from_slice(&unhex_bytes(m)).expect("meta json");
+                let serde_json::Value::Object(map) = v else { panic!("meta must be an object") };
+                both!(&mut st, p => p.meta_data = map);
+                "-".into()
+            }
+            ["h", tt, tc, minz, maxz, cz, f1, f2, f3, f4, f5, f6] => {
+                let z = |s: &str| u8::try_from(unhex_u64(s)).expect("zoom");
+                both!(&mut st, p => {
+                    p.tile_type = ttype_of_code(unhex_u64(tt));
+                    p.tile_compression = comp_of_code(unhex_u64(tc));
+                    p.min_zoom = z(minz);
+                    p.max_zoom = z(maxz);
+                    p.center_zoom = z(cz);
+                    p.min_longitude = parse_f64(f1);
+                    p.min_latitude = parse_f64(f2);
+                    p.max_longitude = parse_f64(f3);
+                    p.max_latitude = parse_f64(f4);
+                    p.center_longitude = parse_f64(f5);
+                    p.center_latitude = parse_f64(f6);
+                });
+                "-".into()
+            }
+            ["q"] => hdr_tok(&st),
+            ["p"] => snap_tok(&st),
+            _ => panic!("bad op {o}"),
+        };
+        outs.push(out);
+    }
+    format!("ok {}", outs.join("|"))
+}
+
 pub fn run_op2(toks: &[&str]) -> String {
-    format!("unsupported {}", toks.first().unwrap_or(&""))
+    match toks {
+        ["tid", z, x, y] => {
+            let (z, x, y) = (u8::try_from(unhex_u64(z)).expect("z"), unhex_u64(x), unhex_u64(y));
+            guard(|| Ok(format!("{:x}", util::tile_id(z, x, y))))
+        }
+        ["zxy", id] => {
+            let id = unhex_u64(id);
+            guard(|| {
+                util::zxy(id)
+                    .map(|(z, x, y)| format!("{z:x} {x:x} {y:x}"))
+                    .map_err(|e| std::io::Error::new(std::io::ErrorKind::Other, e.to_string()))
+            })
+        }
+        ["hdr_dec", mode, b] => {
+            let (asy, b) = (crate::ops::is_async(mode), unhex_bytes(b));
+            guard(|| header_dec(asy, &b).map(|(h, rest)| format!("{} {rest:x}", header_fields_tok(&h))))
+        }
+        ["hdr_enc", mode, fields @ ..] => {
+            let asy = crate::ops::is_async(mode);
+            let h = header_of_fields(fields);
+            guard(|| header_enc(asy, &h).map(|b| hex_bytes(&b)))
+        }
+        ["wdirs", mode, c, ss, pos, pre, es] => {
+            let asy = crate::ops::is_async(mode);
+            let start = if *ss == "-" { None } else { Some(usize::try_from(unhex_u64(ss)).expect("start size")) };
+            let (c, pos, pre, es) = (parse_comp(c), unhex_u64(pos), unhex_bytes(pre), parse_entries(es));
+            guard(|| wdirs(asy, c, start, pos, &pre, &es).map(|o| format!("{} {:x} {}", hex_bytes(&o.img), o.pos, hex_bytes(&o.leaf))))
+        }
+        ["rdirs", mode, c, ro, rl, lo, rg, img] => {
+            let asy = crate::ops::is_async(mode);
+            let (c, ro, rl, lo, rg, img) = (parse_comp(c), unhex_u64(ro), unhex_u64(rl), unhex_u64(lo), parse_range(rg), unhex_bytes(img));
+            guard(|| rdirs(asy, c, ro, rl, lo, rg, &img).map(|m| tiles_tok(&m)))
+        }
+        ["hist", mode, ops] => match catch_unwind(AssertUnwindSafe(|| run_hist(mode, ops))) {
+            Ok(s) => s,
+            Err(_) => "harness-panic".into(),
+        },
+        _ => format!("unsupported {}", toks.first().unwrap_or(&"")),
+    }
 }
